@@ -361,10 +361,13 @@ func (c *Ctx) RangeEnds(ob *core.Obligation, reachKey string, roots []*ssa.Funct
 					continue
 				}
 				f := core.FieldOf(st.Addr)
-				if f != charF && f != lineF {
-					continue
+				role := ""
+				if f == charF || f == lineF {
+					role = positionRole(st.Addr)
+				} else if fa, ok := st.Addr.(*ssa.FieldAddr); ok && f != nil && ownerName(fa) == "Range" && (f.Name() == "Start" || f.Name() == "End") {
+					// a whole position computed by a helper from a token
+					role = f.Name()
 				}
-				role := positionRole(st.Addr)
 				if role != "Start" && role != "End" {
 					continue
 				}
